@@ -15,7 +15,41 @@ import tempfile
 from collections import OrderedDict
 
 from . import common
-from .c12 import Obj, apply_op
+from .c12 import Obj, apply_op as _apply_op12
+
+
+def _enc_val(n):
+    """blob values of three kinds (object / text / bytes: three different codecs), all decoded back to the number"""
+    if n is None:
+        return None
+    return [Obj(n), "s%d" % n, ("b%d" % n).encode()][n % 3]
+
+
+def _dec_val(v):
+    if v is None:
+        return None
+    if isinstance(v, Obj):
+        return v.n
+    if isinstance(v, str) and v[:1] == "s":
+        return int(v[1:])
+    if isinstance(v, (bytes, bytearray)) and v[:1] == b"b":
+        return int(bytes(v[1:]).decode())
+    return "UNDECODABLE:%r" % (v,)
+
+
+def apply_op(store, op, DDSException):
+    """like c12.apply_op, with stored values of varying kinds (an overwritten key may change codec)"""
+    try:
+        if op[0] == "store":
+            store.store_blob(op[1], _enc_val(op[2]), None)
+            return "unit"
+        if op[0] == "fetch":
+            return {"val": _dec_val(store.fetch_blob(op[1]))}
+    except DDSException:
+        return "err"
+    except BaseException as e:
+        return "EXC:" + type(e).__name__
+    return _apply_op12(store, op, DDSException)
 
 DESIGN_REF = "DESIGN.md §5 C08"
 ASSUMPTIONS = ["paths are syntactically absolute; two path strings with the same non-empty segments denote the same path; "
@@ -72,6 +106,12 @@ def gen_ops(rng, paths, n, dangling=False):
             ops.append(["fetch_paths", ["/" + "/".join(p) for p in ps]])
         else:
             ops.append(["reopen"])
+    if rng.random() < 0.5 and stored:
+        # directed: a key is stored, read, stored again with a value of ANOTHER kind (another codec), read again
+        k = rng.choice(sorted(stored))
+        v[0] += 1
+        ops += [["has", k], ["fetch", k], ["store", k, v[0]], ["fetch", k], ["store", k, v[0] + 1], ["has", k], ["fetch", k]]
+        v[0] += 1
     if rng.random() < 0.5 and len(stored) >= 2:
         # directed: a path goes from one key to another and back (a revert), then is resolved
         p = "/" + "/".join(rng.choice(paths))
